@@ -40,6 +40,7 @@ type c13env struct {
 	events chan pubsub.Event
 	oid    mtypes.OrderID
 	prov   sdk.AccAddress
+	differ int     // which component distinguishes the "other" order of the event generator
 	max    sdk.Int // order's maximum price
 	bid    sdk.Int // price the strategy returns
 }
@@ -175,8 +176,18 @@ func c13spec(max sdk.Int) dtypes.GroupSpec {
 // 4 order-closed for another order, 5 unrelated event
 func (e *c13env) mkEvent(kind int) pubsub.Event {
 	other := sdk.AccAddress(make([]byte, 20))
+	// another order: it differs from this one in exactly one component (which one is an input)
 	otherOrder := e.oid
-	otherOrder.DSeq++
+	switch e.differ {
+	case 0:
+		otherOrder.DSeq++
+	case 1:
+		otherOrder.GSeq++
+	case 2:
+		otherOrder.OSeq++
+	case 3:
+		otherOrder.Owner = verif_Addr(3) // another tenant's deployment created in the same block
+	}
 	switch kind {
 	case 0:
 		return mtypes.EventLeaseCreated{ID: mtypes.MakeLeaseID(mtypes.MakeBidID(e.oid, e.prov))}
@@ -199,6 +210,7 @@ func c13new(maxOverBid bool) (*c13env, *order) {
 	}
 	e := &c13env{events: make(chan pubsub.Event), prov: sdk.AccAddress(prov)}
 	e.oid = mtypes.OrderID{Owner: verif_Addr(0), DSeq: 7, GSeq: 1, OSeq: 1}
+	e.differ = verif_Choice("other-order-differs-in", 4)
 	e.max = sdk.NewInt(100)
 	e.bid = sdk.NewInt(60)
 	if maxOverBid {
